@@ -137,6 +137,8 @@ def run(ctx, rep):
                       sample={"category": cname, "inserted": [[fmt_label(x) for x in i] for i in ins]})
     else:
         rep.fail("A", "C06|A|anchor-missing|resolve_types-closure", cfg.where(rtf), "resolve_types must have one callback closure")
+    rep.rule("E", "the 'used' set relies on name matching: C05 rule E re-evaluated (an import must only be matched exactly or at a dot boundary)")
+    c05.matching_rules(ctx, rep, "C06")
     # ---- F
     fold_rule(rep, facts, "validation::check_imports", None, {"diagnostics": Opaque("diagnostics")}, "import", "C06", "imports", False)
     fold_rule(rep, facts, "validation::check_declared_parcelables", None, {"diagnostics": Opaque("diagnostics"), "imports": sym_ref("imports")}, "declared_parcelable", "C06", "forward declarations", True)
